@@ -10,7 +10,7 @@ ID = "C09"
 MODULE = "HttpcoreModel.Props.C09"
 THEOREMS = [f"Httpcore.C09.{n}" for n in ("idle_bound", "no_expired_left", "assigned_is_available_or_new", "reuse_first_available",
                                            "close_reasons", "idle_closed_only_for_reason", "eviction_reason", "source_counts_idle_only",
-                                           "close_reasons_counterexample_107", "in_use_survives_housekeeping", "in_use_not_evicted")] + ["Httpcore.LifeProps.h2_expiry_exact", "Httpcore.LifeProps.h1_expiry_exact", "Httpcore.LifeProps.h1_in_use_never_expires", "Httpcore.LifeProps.h2_in_use_never_expires", "Httpcore.LifeProps.h2_last_close_arms_expiry", "Httpcore.LifeProps.h1_count_exact"]
+                                           "close_reasons_counterexample_107", "in_use_survives_housekeeping", "in_use_h1_survives_housekeeping", "in_use_not_evicted", "cleanup_follows_source", "assign_follows_source")] + ["Httpcore.LifeProps.h1_in_use_view", "Httpcore.LifeProps.h2_in_use_view"] + ["Httpcore.LifeProps.h2_expiry_exact", "Httpcore.LifeProps.h1_expiry_exact", "Httpcore.LifeProps.h1_in_use_never_expires", "Httpcore.LifeProps.h2_in_use_never_expires", "Httpcore.LifeProps.h2_last_close_arms_expiry", "Httpcore.LifeProps.h1_count_exact"]
 TRUSTED = [
     'life-cycle of the connection objects (ConnLife.lean): gate, _response_closed, aclose and the status predicates are *translated* from http11.py / http2.py on every run (harness/lifetrans.py -> Gen.h1*/Gen.h2*); the remaining steps (stream opened / request backed out / GOAWAY / I/O failure recorded) are hand-written and tied by lock-step: instrumented sub-classes log every life-cycle event of the real objects and the Lean driver replays the log (harness/connlife.py, this run)',
     "Lean 4.33 kernel; axioms per theorem under coverage.theorems",
@@ -27,7 +27,7 @@ LEVEL_NOTE = ("Trusted: Lean kernel, extractor / life-cycle translator, stub har
               "server-closed test (idle and readable) are theorems over the translated gate / _response_closed / has_expired (h1_expiry_exact, "
               "h2_expiry_exact, *_in_use_never_expires) and composed with the pass (in_use_survives_housekeeping); the steps of the life-cycle "
               "model that stand for code with suspension points are tied by the event-log lock-step only.")
-TECHNIQUE = "Lean 4 proof (loop invariant of the house-keeping loop) + regenerated surplus expression + lock-step / scenario differential"
+TECHNIQUE = "Lean 4 proof (loop invariant of the house-keeping loop; expiry arithmetic of the translated life-cycle functions; composition of both) + translated if/elif chains of the pass (cleanup_follows_source, assign_follows_source) + lock-step / scenario / event-log differential"
 DESIGN_REF = "§5 C09"
 
 
